@@ -15,3 +15,15 @@ func VerifGetDeviceConfig(cfg Config, bluezAddr string) DeviceConfig {
 	ble := &BleStruct{cfg: cfg}
 	return ble.getDeviceConfig(bluezAddr)
 }
+
+// VerifNewBleStruct creates a BleStruct without starting BlueZ discovery, so that a history of
+// advertisements can be handled by one instance. Only compiled with the build tag "verif".
+func VerifNewBleStruct(cfg Config) *BleStruct {
+	return &BleStruct{cfg: cfg}
+}
+
+// VerifHandle runs the advertisement handler of this instance on the given manufacturer data.
+// Only compiled with the build tag "verif".
+func (ble *BleStruct) VerifHandle(dev DeviceConfig, rawBytes []uint8) {
+	ble.handleNewManufacturerData(dev, rawBytes)
+}
